@@ -20,7 +20,7 @@ def one(sid):
                 return sid, prop, "patch does not apply", []
         env = dict(os.environ, GOFLAGS="-mod=mod -trimpath", GOPROXY="off", GOSUMDB="off", GOTOOLCHAIN="local")
         env.pop("GOWORK", None)
-        c = subprocess.run([os.path.join(HERE, "bin", "escalint"), "check", "-prop", prop, "-repo", dst, "-verif", HERE, "-n"], capture_output=True, text=True, errors="replace", env=env)
+        c = subprocess.run([os.environ.get("ESCALINT_BIN") or os.path.join(HERE, "bin", "escalint"), "check", "-prop", prop, "-repo", dst, "-verif", HERE, "-n"], capture_output=True, text=True, errors="replace", env=env)
         rules = sorted(set(l.split()[1] for l in c.stdout.splitlines() if l.startswith(("VIOLATED", "UNDECIDED", "VACUOUS", "ANCHOR-LOST"))))
         return sid, prop, "fires" if c.returncode == 1 else "BLIND", rules
     finally:
